@@ -439,7 +439,7 @@ fn gen_explicit(r: &mut Rng) -> i64 {
 }
 
 /// Err = the scenario could not be set up or a request failed for a reason unrelated to timestamps (environment)
-async fn run_e(serial: u64, with_gen: bool, nreq: usize) -> Result<String, String> {
+async fn run_e(serial: u64, with_gen: bool, nreq: usize, shape: Option<char>) -> Result<String, String> {
     use scylla::response::PagingState;
     let table = mock::TableDef::new("t", &[("pk", mock::CqlType::Int)], &[("ck", mock::CqlType::Int)], &[("v", mock::CqlType::Text)]);
     let spec = mock::ClusterSpec::uniform("c18", &[("dc1", 1)], 1, 4, 2)
@@ -467,13 +467,26 @@ async fn run_e(serial: u64, with_gen: bool, nreq: usize) -> Result<String, Strin
     let mut r = Rng::new(serial);
     // request kinds: unprepared q (unpaged) i (iter) p (single page); prepared x (unpaged) j (iter) s (single page);
     // batches b (unprepared statements) c (an unprepared and the prepared statement)
-    let kinds = ['q', 'x', 'b', 'i', 'j', 'c', 'p', 's'];
+    // wave 4: w y z (unprepared WITH values: prepared on the fly) and the batch shapes P V W M (see the header)
+    let kinds = ['q', 'x', 'b', 'i', 'j', 'c', 'p', 's', 'V', 'w', 'P', 'M', 'y', 'W', 'z'];
     let plan: Vec<(char, Option<i64>)> = (0..nreq)
-        .map(|i| (kinds[i % kinds.len()], if r.chance(2, 5) { Some(gen_explicit(&mut r)) } else { None }))
+        .map(|i| match shape {
+            None => (kinds[i % kinds.len()], if r.chance(2, 5) { Some(gen_explicit(&mut r)) } else { None }),
+            // one shape per case: explicit timestamp on the even requests (deterministic counts for the floors)
+            Some(k) => (k, if i % 2 == 0 { Some(gen_explicit(&mut r)) } else { None }),
+        })
         .collect();
     // the first EXECUTEs of the statement are answered UNPREPARED: the driver re-prepares and RE-SENDS the frame
     let n_unprepared = (nreq / 6).max(2);
     cluster.script(mock::NodeSel::Any, insert, vec![mock::Action::Unprepared; n_unprepared]);
+    if let Some(k) = shape {
+        if "PVWMc".contains(k) {
+            // the BATCH frame names the prepared statement: the first two BATCH frames are answered UNPREPARED with
+            // its id, the driver re-prepares and re-sends the (possibly rewritten) batch
+            let unprep = || mock::Action::Error(mock::ErrorSpec::new(mock::DbErr::Unprepared { id: prepared_id.clone() }, "c18: scripted UNPREPARED for BATCH"));
+            cluster.script(mock::NodeSel::Any, mock::Key::Batch, vec![unprep(), unprep()]);
+        }
+    }
     let half = nreq / 2;
     for phase in 0..2 {
         if phase == 1 {
@@ -518,6 +531,58 @@ async fn run_e(serial: u64, with_gen: bool, nreq: usize) -> Result<String, Strin
                                 .map(|_| ())
                                 .map_err(|e| e.to_string()),
                         }
+                    }
+                    'w' | 'y' | 'z' => {
+                        // unprepared WITH bound values: the session prepares it on the fly (the PreparedStatement made
+                        // there inherits the statement's configuration) and sends EXECUTE
+                        let mut st = Statement::new(insert);
+                        st.set_timestamp(explicit);
+                        let vals = (i as i32, 5i32, "w");
+                        match kind {
+                            'w' => session.query_unpaged(st, vals).await.map(|_| ()).map_err(|e| e.to_string()),
+                            'y' => {
+                                let _ = session.query_iter(st, vals).await;
+                                Ok(())
+                            }
+                            _ => session.query_single_page(st, vals, PagingState::start()).await.map(|_| ()).map_err(|e| e.to_string()),
+                        }
+                    }
+                    'P' => {
+                        let mut batch = Batch::default();
+                        batch.append_statement(prepared.clone());
+                        batch.append_statement(prepared);
+                        batch.set_timestamp(explicit);
+                        session.batch(&batch, ((i as i32, 11i32, "P"), (i as i32, 12i32, "P"))).await.map(|_| ()).map_err(|e| e.to_string())
+                    }
+                    'V' => {
+                        // every statement unprepared WITH values: Connection::prepare_batch prepares them and sends a
+                        // REWRITTEN batch (Batch::new_from)
+                        let mut batch = Batch::default();
+                        batch.append_statement(Statement::new(insert));
+                        batch.append_statement(Statement::new(insert));
+                        batch.set_timestamp(explicit);
+                        session.batch(&batch, ((i as i32, 6i32, "V"), (i as i32, 7i32, "V"))).await.map(|_| ()).map_err(|e| e.to_string())
+                    }
+                    'W' => {
+                        // rewritten batch that keeps an unprepared statement
+                        let mut batch = Batch::default();
+                        batch.append_statement(Statement::new(insert));
+                        batch.append_statement(Statement::new(text("W")));
+                        batch.set_timestamp(explicit);
+                        session.batch(&batch, ((i as i32, 8i32, "W"), ())).await.map(|_| ()).map_err(|e| e.to_string())
+                    }
+                    'M' => {
+                        // mixed: unprepared with values + prepared + unprepared without values (rewritten)
+                        let mut batch = Batch::default();
+                        batch.append_statement(Statement::new(insert));
+                        batch.append_statement(prepared);
+                        batch.append_statement(Statement::new(text("M")));
+                        batch.set_timestamp(explicit);
+                        session
+                            .batch(&batch, ((i as i32, 9i32, "M"), (i as i32, 10i32, "M"), ()))
+                            .await
+                            .map(|_| ())
+                            .map_err(|e| e.to_string())
                     }
                     'b' => {
                         let mut batch = Batch::default();
@@ -568,6 +633,12 @@ async fn run_e(serial: u64, with_gen: bool, nreq: usize) -> Result<String, Strin
                     let bt = wire::decode_batch(body).map_err(|e| format!("decode BATCH: {e:?}"))?;
                     match bt.statements.first() {
                         Some(wire::BatchStmt::Query { text, .. }) => id_of_text(text).map(|i| (i, bt.timestamp)),
+                        // fully prepared and rewritten batches: the first value of the first statement is the request number
+                        Some(wire::BatchStmt::Prepared { id, values }) if *id == prepared_id => values
+                            .first()
+                            .and_then(|v| v.as_bytes())
+                            .filter(|b| b.len() == 4)
+                            .map(|b| (i32::from_be_bytes([b[0], b[1], b[2], b[3]]) as usize, bt.timestamp)),
                         _ => None,
                     }
                 }
@@ -625,16 +696,35 @@ fn run_case(case: &str) -> String {
                 return "error bad-parameters".into();
             }
             let rt = tokio::runtime::Builder::new_multi_thread().worker_threads(4).enable_all().build().unwrap();
-            let r = rt.block_on(run_e(serial, with_gen, nreq));
+            let r = rt.block_on(run_e(serial, with_gen, nreq, None));
             match r {
                 Ok(s) => s,
                 // nothing was observed: the scenario could not run (counted, capped by checks/c18.py)
                 Err(e) => format!("skip-env {}", e.replace(' ', "_")),
             }
         }
+        "S" if f.len() == 5 => {
+            let (serial, with_gen, nreq) = (h(f[1]), h(f[2]) != 0, h(f[4]) as usize);
+            let kind = f[3].chars().next().unwrap();
+            if nreq > 100_000 || f[3].len() != 1 || !S_KINDS.contains(&kind) {
+                return "error bad-parameters".into();
+            }
+            let mut last = String::new();
+            for attempt in 0..3u64 {
+                let rt = tokio::runtime::Builder::new_multi_thread().worker_threads(4).enable_all().build().unwrap();
+                match rt.block_on(run_e(serial.wrapping_add(attempt << 40), with_gen, nreq, Some(kind))) {
+                    Ok(s) => return s,
+                    Err(e) => last = e,
+                }
+            }
+            format!("skip-env {}", last.replace(' ', "_"))
+        }
         _ => "error unknown-case".into(),
     }
 }
+
+/// the request shapes of the S cases (checks/c18.py has a floor for every one of them, with and without a generator)
+const S_KINDS: [char; 15] = ['q', 'i', 'p', 'x', 'j', 's', 'w', 'y', 'z', 'b', 'c', 'P', 'V', 'W', 'M'];
 
 fn main() {
     let a = parse_args();
@@ -670,7 +760,7 @@ fn main() {
         budget -= (threads * 2_000) as i64;
     }
     // FIXED number of cases of every kind, independent of the seed (checks/c18.py floors are below these counts):
-    // T 15 + 3 + 3 + 12 = 33, B 5, C 9, E 12 (quick) / 60 (thorough); the seeded part below only adds to them
+    // T 15 + 3 + 3 + 12 = 33, B 5, C 9, E 12 (quick) / 60 (thorough), S 30 / 60; the seeded part below only adds to them
     for (pace, warn) in [(0u64, 0u64), (1, 1), (2, 0), (0, 1), (1, 0)] {
         let calls = if pace == 1 { 5_000 } else { 40_000 };
         serial += 1;
@@ -699,6 +789,18 @@ fn main() {
         serial += 1;
         emit(&mut out, format!("C {:x} {:x} {:x} {:x}", serial, warn, 20_000, profile));
         budget -= 20_000;
+    }
+    // one request SHAPE per case, with and without a generator: FIXED 30 cases (quick) / 60 (thorough) for every seed;
+    // the rewritten-batch shapes come first, and all of them before the mixed E scenarios (a replay file then starts
+    // with the shape that fails)
+    for rep in 0..(if thorough { 2 } else { 1 }) {
+        for kind in ['V', 'W', 'M', 'P', 'b', 'c', 'w', 'y', 'z', 'q', 'i', 'p', 'x', 'j', 's'] {
+            for gen in [1u64, 0] {
+                serial += 1;
+                let nreq = if rep == 0 { 12 } else { r.range(8, 40) };
+                emit(&mut out, format!("S {:x} {:x} {} {:x}", serial, gen, kind, nreq));
+            }
+        }
     }
     // end-to-end part: which timestamp goes into the frames
     let e_cases = if thorough { 60 } else { 12 };
